@@ -24,6 +24,14 @@ type DKG struct {
 	Enc      []tss.EncSecretShares
 	Priv     []tss.Scalar
 	Round    int // rounds whose messages have been sent
+	// Peers receive exactly the same messages as the primary keeper (twin replicas)
+	Peers []Peer
+}
+
+// Peer is another replica's keeper and context.
+type Peer struct {
+	Ctx sdk.Context
+	K   *tsskeeper.Keeper
 }
 
 // NewAccounts makes n fresh accounts from a seed (no collision with bandtesting's accounts).
@@ -38,7 +46,12 @@ func NewAccounts(seed int64, n int) []bandtesting.Account {
 
 // Send sends the messages of the next round (1, 2, 3 = confirm) for every member; returns the first error.
 func (d *DKG) Send(ctx sdk.Context, k *tsskeeper.Keeper) error {
-	ms := tsskeeper.NewMsgServerImpl(k)
+	ms0 := tsskeeper.NewMsgServerImpl(k)
+	ms := &bcast{primary: ms0, ctx: ctx}
+	for _, p := range d.Peers {
+		ms.peers = append(ms.peers, tsskeeper.NewMsgServerImpl(p.K))
+		ms.pctx = append(ms.pctx, p.Ctx)
+	}
 	group, err := k.GetGroup(ctx, d.GroupID)
 	if err != nil {
 		return err
@@ -180,4 +193,75 @@ func NewGroupWith(app *fx.App, ctx sdk.Context, accounts []bandtesting.Account, 
 		return nil, fmt.Errorf("group not active: %v %v", g.Status, err)
 	}
 	return d.AsGroup(ctx, k), nil
+}
+
+
+// bcast sends every DKG message to the primary replica and then, unchanged, to the peers.
+type bcast struct {
+	primary tsstypes.MsgServer
+	ctx     sdk.Context
+	peers   []tsstypes.MsgServer
+	pctx    []sdk.Context
+}
+
+func (b *bcast) SubmitDKGRound1(ctx sdk.Context, m *tsstypes.MsgSubmitDKGRound1) (*tsstypes.MsgSubmitDKGRound1Response, error) {
+	r, err := b.primary.SubmitDKGRound1(ctx, m)
+	for i, p := range b.peers {
+		if _, e := p.SubmitDKGRound1(b.pctx[i], m); (e == nil) != (err == nil) {
+			return r, fmt.Errorf("replicas disagree on round1: %v vs %v", err, e)
+		}
+	}
+	return r, err
+}
+
+func (b *bcast) SubmitDKGRound2(ctx sdk.Context, m *tsstypes.MsgSubmitDKGRound2) (*tsstypes.MsgSubmitDKGRound2Response, error) {
+	r, err := b.primary.SubmitDKGRound2(ctx, m)
+	for i, p := range b.peers {
+		if _, e := p.SubmitDKGRound2(b.pctx[i], m); (e == nil) != (err == nil) {
+			return r, fmt.Errorf("replicas disagree on round2: %v vs %v", err, e)
+		}
+	}
+	return r, err
+}
+
+func (b *bcast) Confirm(ctx sdk.Context, m *tsstypes.MsgConfirm) (*tsstypes.MsgConfirmResponse, error) {
+	r, err := b.primary.Confirm(ctx, m)
+	for i, p := range b.peers {
+		if _, e := p.Confirm(b.pctx[i], m); (e == nil) != (err == nil) {
+			return r, fmt.Errorf("replicas disagree on confirm: %v vs %v", err, e)
+		}
+	}
+	return r, err
+}
+
+// NewGroupTwin runs ONE key generation and feeds its messages to two replicas, so that both end up with the same
+// ACTIVE group (same public key, same members).
+func NewGroupTwin(appA *fx.App, ctxA sdk.Context, appB *fx.App, ctxB sdk.Context, accounts []bandtesting.Account, t uint64, owner string) (*Group, error) {
+	var members []sdk.AccAddress
+	for _, a := range accounts {
+		members = append(members, a.Address)
+	}
+	gid, err := appA.TSSKeeper.CreateGroup(ctxA, members, t, owner)
+	if err != nil {
+		return nil, err
+	}
+	gidB, err := appB.TSSKeeper.CreateGroup(ctxB, members, t, owner)
+	if err != nil || gidB != gid {
+		return nil, fmt.Errorf("replica B group: %v %v", gidB, err)
+	}
+	d := &DKG{GroupID: gid, Accounts: accounts, Peers: []Peer{{Ctx: ctxB, K: appB.TSSKeeper}}}
+	for round := 0; round < 3; round++ {
+		if err := d.Send(ctxA, appA.TSSKeeper); err != nil {
+			return nil, fmt.Errorf("round %d: %w", round+1, err)
+		}
+		appA.TSSKeeper.HandleProcessGroup(ctxA, gid)
+		appB.TSSKeeper.HandleProcessGroup(ctxB, gid)
+	}
+	appA.TSSKeeper.SetPendingProcessGroups(ctxA, tsstypes.PendingProcessGroups{})
+	appB.TSSKeeper.SetPendingProcessGroups(ctxB, tsstypes.PendingProcessGroups{})
+	g, err := appA.TSSKeeper.GetGroup(ctxA, gid)
+	if err != nil || g.Status != tsstypes.GROUP_STATUS_ACTIVE {
+		return nil, fmt.Errorf("group not active: %v %v", g.Status, err)
+	}
+	return d.AsGroup(ctxA, appA.TSSKeeper), nil
 }
